@@ -427,6 +427,12 @@ func closure(tree interface{}) []Mut {
 			add(p, "str-nonascii", "é"+t)
 			add(p, "str-rune", t+"€")
 			add(p, "str-badutf8", "\xff"+t)
+			add(p, "str-b64-5bytes", "AAAAAAA=")
+
+			if i := strings.Index(t, "#"); i > 0 {
+				add(p, "str-nofrag", t[:i])
+			}
+
 			add(p, "str-hash", t+"#")
 			add(p, "str-dot", t+".")
 		case []interface{}:
